@@ -296,6 +296,21 @@ func checkWCNF(c WCNFCase, o *vf.Obs) error {
 	if feasible != (res.Status == solver.Sat) || feasible && res.Weight != best {
 		return fmt.Errorf("ParseWCNF+Optimal = (%v, %d), the text's optimum: hard clauses satisfiable=%v minimum=%d\n--- text ---\n%s", res.Status, res.Weight, feasible, best, txt)
 	}
+	// the same question asked with a result channel: the value returned must be the same
+	if s2, err := maxsat.ParseWCNF(texts.ReaderFor(txt)); err == nil {
+		ch := make(chan solver.Result)
+		done := make(chan struct{})
+		go func() {
+			for range ch {
+			}
+			close(done)
+		}()
+		r2 := s2.Optimal(ch, nil)
+		<-done
+		if feasible != (r2.Status == solver.Sat) || feasible && r2.Weight != best {
+			return fmt.Errorf("ParseWCNF+Optimal(results channel) returns (%v, %d), the text's optimum: hard clauses satisfiable=%v minimum=%d\n--- text ---\n%s", r2.Status, r2.Weight, feasible, best, txt)
+		}
+	}
 	if c.Top == 0 {
 		return nil // no hard clause available to pin an assignment
 	}
@@ -657,7 +672,7 @@ func init() {
 	subOPB = vf.Sub[OPBCase]{Name: "opb", Quick: 10000, Thorough: 120000, Gen: genOPB, Check: checkOPB, Floor: 0.3,
 		Rule: "OPB text written from a PB problem (coefficients of either sign, >= / = / <= (as negated >=), trivially true/false constraints, optional min: line with signed coefficients) with layout knobs: '*' comments, explicit '+' or not, several blanks, CRLF, blank lines, optional final newline, and the zero-space forms the grammar allows ('>=0', '0;', 'min:+1'); oracle: parsed problem evaluated without solving has the text's models; Optimal = brute-force optimum; for up to 3 drawn assignments the text extended with unit constraints pinning the assignment yields exactly that assignment's cost, or Unsat when it violates a constraint; non-trivial as above"}
 	subWCNF = vf.Sub[WCNFCase]{Name: "wcnf", Quick: 8000, Thorough: 100000, Gen: genWCNF, Check: checkWCNF, Floor: 0.3,
-		Rule: "WCNF text (p wcnf V C [top], one weighted clause per line; top just above the sum of the soft weights, or, in a sixth of the cases, a large constant up to 2^62) with 'c' comments, several blanks, CRLF, optional final newline; oracle: Optimal = brute-force minimum weight of violated soft clauses; pinned assignments (unit hard clauses) give their exact cost or Unsat; non-trivial as above"}
+		Rule: "WCNF text (p wcnf V C [top], one weighted clause per line; top just above the sum of the soft weights, or, in a sixth of the cases, a large constant up to 2^62) with 'c' comments, several blanks, CRLF, optional final newline; oracle: Optimal (without and with a result channel) = brute-force minimum weight of violated soft clauses; pinned assignments (unit hard clauses) give their exact cost or Unsat; non-trivial as above"}
 	subLong := vf.Sub[LongCase]{Name: "long-lines", Quick: 30, Thorough: 100, Gen: genLong, Check: checkLong, Floor: 0,
 		Rule: "texts with very long lines: DIMACS comment lines of 100 bytes to 80 KB (words, or numbers that would read as clauses) for both DIMACS readers, and lines of more than 64 KiB: an OPB objective / clause over 3000..9000 variables, a WCNF hard clause or a DIMACS clause (for explain.ParseCNF) whose literal list is repeated; and DIMACS texts of more than 128 KB whose 14000..24000 clauses are each written over several lines (both DIMACS readers); the meaning is known by construction (optimum = weight of the forced variables, or the smallest weight; clause list read back as written); non-trivial = the longest line exceeds 65536 bytes (4096 for comments)"}
 	vf.Register(subDimacsSolver, subDimacsExplain, subOPB, subWCNF, subLong)
